@@ -129,7 +129,13 @@ where
             WaitingProjected::NoPool => Poll::Ready(WaitingPoll::Closed),
         };
 
-        if polled.is_ready() {
+        // Only give up the receiver once it can never yield anything again. `NotReady` means
+        // "nothing yet": the checkout keeps connecting, and a connection released later must
+        // still be able to reach it.
+        if matches!(
+            polled,
+            Poll::Ready(WaitingPoll::Connected(_)) | Poll::Ready(WaitingPoll::Closed)
+        ) {
             self.as_mut().set(Waiting::NoPool);
         };
 
